@@ -212,6 +212,36 @@ func (o *oracle) oracleURI() {
 	}
 }
 
+// oracleURIAccepted: what the property demands of EVERY accepted URI, whatever the input string looked like
+// (no reference parser involved): known scheme and transport, non-empty host, port in range, and the
+// format/parse round trip.
+func (o *oracle) oracleURIAccepted() {
+	for _, raw := range uriCandidates(o, 3) {
+		if o.fails >= 3 {
+			return
+		}
+		o.cases++
+		var u *URI
+		var err error
+		if o.guard(fmt.Sprintf("ParseURI(%q)", raw), func() { u, err = ParseURI(raw) }) || err != nil || u == nil {
+			continue
+		}
+		if u.Scheme < SchemeTypeSTUN || u.Scheme > SchemeTypeTURNS || (u.Proto != ProtoTypeUDP && u.Proto != ProtoTypeTCP) || u.Host == "" || u.Port < 0 || u.Port > 65535 {
+			o.failf("ParseURI(%q) accepted {scheme %d host %q port %d proto %d}", raw, u.Scheme, u.Host, u.Port, u.Proto)
+			continue
+		}
+		var again *URI
+		var err2 error
+		str := u.String()
+		if o.guard(fmt.Sprintf("ParseURI(%q)", str), func() { again, err2 = ParseURI(str) }) {
+			continue
+		}
+		if err2 != nil || again == nil || *again != *u {
+			o.failf("ParseURI(%q) = {%s %q %d %s}; its String() %q does not parse back to the same URI (got %v, %v)", raw, u.Scheme, u.Host, u.Port, u.Proto, str, again, err2)
+		}
+	}
+}
+
 // fakeNet records what DialURI dials.
 type dialRec struct{ kind, network, addr string }
 
@@ -374,6 +404,7 @@ func (o *oracle) oracleDialSequence() {
 func TestOracleC17(t *testing.T) {
 	o := newOracle(t)
 	o.oracleURI()
+	o.oracleURIAccepted()
 	o.oracleDialURI()
 	o.oracleDialSequence()
 }
